@@ -54,20 +54,70 @@ def rust_unescape(lit):
             i += 1
     return "".join(out)
 
+def string_literals(src):
+    """bodies of the ordinary string literals of a Rust source text (comments and char literals skipped)"""
+    import re
+    out, i, n = [], 0, len(src)
+    while i < n:
+        c = src[i]
+        if src.startswith("//", i):
+            j = src.find("\n", i)
+            i = n if j < 0 else j + 1
+            continue
+        if src.startswith("/*", i):
+            j = src.find("*/", i)
+            i = n if j < 0 else j + 2
+            continue
+        if c == "'":
+            m = re.match(r"'(\\u\{[0-9a-fA-F]+\}|\\.|[^\\'])'", src[i:])
+            i += m.end() if m else 1
+            continue
+        if c == '"':
+            j, buf = i + 1, []
+            while j < n and src[j] != '"':
+                if src[j] == "\\":
+                    buf.append(src[j:j + 2])
+                    j += 2
+                else:
+                    buf.append(src[j])
+                    j += 1
+            out.append("".join(buf))
+            i = j + 1
+            continue
+        i += 1
+    return out
+
+def literal_with(lits, anchor):
+    """the (longest) string literal whose characters contain `anchor`, unescaped; "" when there is none"""
+    found = []
+    for l in lits:
+        try:
+            u = rust_unescape(l)
+        except Exception:
+            continue
+        if anchor in u:
+            found.append(u)
+    return max(found, key=len) if found else ""
+
 def parse_fixed_sources():
-    """Tables that live inside function bodies of src/fixed/*.rs, read from the source text."""
+    """Tables that live in the source text of src/fixed/*.rs (inside function bodies or as constants): the
+    first-letter table of the dictionary search, the character class of its pattern, the characters it strips,
+    the marks of automatic vowel forming.  They are recognised by content (a string literal holding the first
+    members), not by the syntax around them, so that moving a literal into a constant or a helper function keeps
+    the generation working; the streams compare what the model does with them against the implementation."""
     import re
     s = open("/repo/src/fixed/search.rs", encoding="utf-8").read()
-    arms = re.findall(r"'(.)' => \"(\w+)\",", s)
-    # a literal that cannot be found any more (refactored away) yields an empty table: the streams then show
-    # model and implementation apart and look for the failing input
-    m = re.search(r'"\^\{\}\[(.*?)\]\{\{0,\{\}\}\}\$"', s)
-    cls = rust_unescape(m.group(1)) if m else ""
-    m = re.search(r'\.filter\(\|&c\| !"(.*?)"\.contains\(c\)\)', s)
-    clean = rust_unescape(m.group(1)) if m else ""
+    arms = re.findall(r"'(.)' => (?:Some\()?\"(\w+)\"\)?,", s)
+    # a table that cannot be found any more yields an empty one: the streams then show model and implementation
+    # apart and look for the failing input
+    lits = string_literals(s)
+    cls = literal_with(lits, "\u0985\u0986\u0987\u0988")
+    m = re.search(r"\[(.*?)\]", cls, re.S)
+    if m:
+        cls = m.group(1)
+    clean = literal_with(lits, "^$*+?")
     s2 = open("/repo/src/fixed/method.rs", encoding="utf-8").read()
-    m = re.search(r'const MARKS: &str = "(.*)";', s2)
-    marks = rust_unescape(m.group(1)) if m else ""
+    marks = literal_with(string_literals(s2), "`~!@#$%^")
     return arms, cls, clean, marks
 
 def main():
